@@ -124,6 +124,7 @@ m("c01-revert-F3", None, "selftest/reverts/F3.patch", None, ["C01"])
 m("c01-revert-F4", None, "selftest/reverts/F4.patch", None, ["C01"])
 m("c01-signed-len-32", S + "long_range_ais_broadcast.rs", "|data| signed_i32(data, 17),", "|data| signed_i32(data, 32),", ["C01"])
 m("c01-remaining-bits-wrong-order", S + "parsers.rs", "data.0.len() * 8 - data.1", "data.0.len() * 8 - data.1 - 1", ["C01"])
+n("n-c01-plus-one-form", SS, "if ais_sentence.fragment_number.checked_sub(self.fragment_number) != Some(1) {", "if ais_sentence.fragment_number != self.fragment_number + 1 {", ["C01", "C05", "C06"])
 n("n-c01-checked-form", S + "parsers.rs", "data.0.len() * 8 - data.1", "(data.0.len() * 8).saturating_sub(data.1)", ["C01"])
 # ---- C18
 NN = S + "nom_noalloc.rs"
@@ -219,6 +220,5 @@ def main():
 
 if __name__ == "__main__":
     os.makedirs("/verif/.work/selftest_out/evidence", exist_ok=True)
-    if not os.path.exists("/verif/.work/selftest_out/known_findings.txt"):
-        shutil.copy("/verif/known_findings.txt", "/verif/.work/selftest_out/known_findings.txt")
+    shutil.copy("/verif/known_findings.txt", "/verif/.work/selftest_out/known_findings.txt")
     sys.exit(main())
